@@ -40,8 +40,9 @@ class C04(Prop):
             k = rng.random()
             if nodes and k < 0.35:
                 p, _ = rng.choice(nodes)
-                xp = X.render(t, p, rng) + rng.choice(["/zz", "[7]", "/..", "[*]", "/a", "[new()]", "/a/b", "[-9]", "[x]", "[", "]", "/*", ""])
-                tag = "derived"
+                sfx = rng.choice(["/zz", "[7]", "/..", "[*]", "/a", "[new()]", "/a/b", "[-9]", "[x]", "[", "]", "/*", "", "", ""])
+                xp = X.render(t, p, rng) + sfx
+                tag = "derived" if sfx else "resolves"
             else:
                 xp = X.gen_soup(rng)
                 tag = "soup"
@@ -84,6 +85,8 @@ class C04(Prop):
         q = i["xpath"].startswith("?")
         if i["kind"] == 0:
             if "raise" in obs:
+                if case.get("tag", "").startswith("resolves") and not q:
+                    return "%r spells an existing node but item access raised %s" % (i["xpath"], obs.get("exc"))
                 if q:
                     return "'?'-prefixed item access raised %s" % obs.get("exc")
                 if obs["raise"] not in X.ALLOWED_MISS:
@@ -91,6 +94,8 @@ class C04(Prop):
             return None
         if "raise" in obs:
             return "%s raised %s" % ("get" if i["kind"] == 1 else "first", obs.get("exc"))
+        if case.get("tag", "").startswith("resolves") and not q and isinstance(res, str) and res == X.DFLT:
+            return "%r spells an existing node but get/first returned the default" % i["xpath"]
         if item is not None and not q:
             if item[0] == "raise" and res != X.DFLT:
                 return "item access raises %s but get/first returned %r instead of the default" % (item[1], res)
